@@ -37,7 +37,9 @@ def impl_piece(value, st):
         try:
             sd = list(P.python_to_sdocs(value, indent=indent, width=width, depth=depth, ribbon_width=ribbon,
                                         max_seq_len=msl, sort_dict_keys=sort))
-            text = default_render_to_str(list(sd))
+            # the text comes from the public entry point (so that the settings glue of __init__.py is on the path)
+            text = pp.pformat(value, indent=indent, width=width, depth=depth, ribbon_width=ribbon,
+                              max_seq_len=msl, sort_dict_keys=sort)
             piece = '(%s %s)' % (sdocs_to_sx(sd), sx_str('text', text))
         except Exception as e:
             return '(error %s)' % type(e).__name__, None, ['raised']
@@ -586,15 +588,25 @@ import re as _re
 _TRUNC = _re.compile(r'\.\.\.and (\d+) more elements')
 
 
+class LongList(list):
+    """marker: replaced by list(range(default max_seq_len + 5)) inside the worker (keeps the task small)"""
+
+
 def trunc_chunk(args):
     cases = args
     drv = _driver()
     mism, fails = [], []
     n = nt = 0
     for (value, widths) in cases:
-        sx = val_to_sx(value)
-        ml = max_len(value)
-        ns = list(range(1, ml + 2)) + [None]
+        if type(value) is LongList:
+            value = list(range(pp.get_default_config()['max_seq_len'] + 5))
+            sx = val_to_sx(value)
+            ml = len(value)
+            ns = [3, ml - 1, ml, ml + 1, None]
+        else:
+            sx = val_to_sx(value)
+            ml = max_len(value)
+            ns = list(range(1, ml + 2)) + [None]
         sets = [(4, w, w, None, N, 0) for w in widths for N in ns]
         pieces, texts = [], []
         for st in sets:
@@ -654,6 +666,8 @@ def truncation_section(tier, seed):
     vals += [[1, 2, 3], (1, 2), {1, 2, 3}, frozenset([1, 2]), {'a': 1, 'b': 2, 'c': 3}, [[1, 2, 3], [4, 5]], {'a': [1, 2, 3]}, [(1,), [2]], [],
              {(1, 2, 3): [1, 2]}, list(range(12))]
     cases = [(v, rng.sample([1, 6, 10, 20, 40, 79], 2)) for v in vals]
+    # longer than the *default* limit: None must still disable truncation
+    cases.append((LongList(), [79]))
     chunks = [cases[i:i + 20] for i in range(0, len(cases), 20)]
     tot = nt = 0
     mism, fails = [], []
